@@ -39,6 +39,11 @@ pub struct PScen {
     /// (0 before fetching, 1 inside its window, 2 after releasing); the caller catches it
     #[serde(default)]
     pub panic: Option<(usize, u8)>,
+    /// 0: the tree is assembled at run time through the boxing adapter; 1: the same description,
+    /// built as ONE static type with the library's own `par!` / `seq!` macros (no boxes between
+    /// the nodes, so whatever the node types call on each other is really called)
+    #[serde(default)]
+    pub static_shape: u8,
 }
 
 struct BoxNode(Box<dyn for<'a> RunWithPool<'a> + Send>);
@@ -88,6 +93,40 @@ pub fn gen(seed: u64) -> PScen {
         sc.panic = Some((rng.below(64) as usize, rng.below(3) as u8));
         sc.ncalls = 2 + rng.below(2) as usize;
     }
+    if rng.chance(1, 25) {
+        // the static long tree: par![side, seq![six!(six!(leaf)) x 3]] = 1 + 108 read-only leaves
+        let nres = sc.resmap.len();
+        let mut leaf = || Tree::Leaf { reads: (0..nres).filter(|_| rng.chance(1, 5)).collect(), writes: vec![] };
+        let side = leaf();
+        let big = Tree::Seq((0..3).map(|_| Tree::Seq((0..6).map(|_| Tree::Seq((0..6).map(|_| leaf()).collect())).collect())).collect());
+        sc.tree = Tree::Par(vec![side, big]);
+        sc.static_shape = 1;
+        sc.ncalls = 1;
+        sc.panic = None;
+        return sc;
+    }
+    if rng.chance(1, 25) {
+        // a long tree: a par node one of whose children is a deeply nested seq of 90..220
+        // read-only leaves (fan-out at most 6 everywhere)
+        let nres = sc.resmap.len();
+        let n = 90 + rng.below(131) as usize;
+        let mut level: Vec<Tree> = (0..n).map(|_| Tree::Leaf { reads: (0..nres).filter(|_| rng.chance(1, 5)).collect(), writes: vec![] }).collect();
+        while level.len() > 1 {
+            let mut next = Vec::new();
+            let mut it = level.into_iter().peekable();
+            while it.peek().is_some() {
+                let k = 2 + rng.below(5) as usize;
+                let kids: Vec<Tree> = it.by_ref().take(k).collect();
+                next.push(if kids.len() == 1 { kids.into_iter().next().unwrap() } else { Tree::Seq(kids) });
+            }
+            level = next;
+        }
+        let big = level.pop().unwrap();
+        let side = Tree::Leaf { reads: (0..nres).filter(|_| rng.chance(1, 3)).collect(), writes: vec![] };
+        sc.tree = if rng.chance(1, 2) { Tree::Par(vec![side, big]) } else { Tree::Seq(vec![Tree::Par(vec![big, side]), Tree::Leaf { reads: vec![], writes: vec![0] }]) };
+        sc.ncalls = 1;
+        sc.panic = None;
+    }
     sc
 }
 
@@ -106,6 +145,7 @@ fn gen_plain(seed: u64) -> PScen {
         ncalls: 1 + rng.below(2) as usize,
         fine_points: rng.chance(1, 3),
         panic: None,
+        static_shape: 0,
     }
 }
 
@@ -145,6 +185,25 @@ fn par_conflict(t: &Tree) -> bool {
             false
         }
     }
+}
+
+/// Static shape 1 (see `PScen::static_shape`); leaves in depth-first order.
+fn build_static_1(ctx: &Arc<Ctx>, lv: &[(Vec<usize>, Vec<usize>)]) -> BoxNode {
+    let mut next = 0usize;
+    let mut leaf = || {
+        let (r, w) = &lv[next];
+        let s = DynSys::new(ctx, next, r, w, 3);
+        next += 1;
+        s
+    };
+    macro_rules! six {
+        ($e:expr) => {
+            shred::seq![$e, $e, $e, $e, $e, $e,]
+        };
+    }
+    let side = leaf();
+    let big = shred::seq![six!(six!(leaf())), six!(six!(leaf())), six!(six!(leaf())),];
+    BoxNode(Box::new(shred::par![side, big,]))
 }
 
 fn build_node(ctx: &Arc<Ctx>, t: &Tree, next: &mut usize) -> BoxNode {
@@ -257,7 +316,7 @@ pub fn run_scen(sc: &PScen, strat: &StratSpec, seed: u64, replay: Option<Vec<u32
     rayon::set_machine_size(16);
     let must_reject = par_conflict(&sc.tree);
     let mut next = 0;
-    let built = catch_unwind(AssertUnwindSafe(|| build_node(&ctx, &sc.tree, &mut next)));
+    let built = catch_unwind(AssertUnwindSafe(|| if sc.static_shape == 1 && lv.len() == 109 { build_static_1(&ctx, &lv) } else { build_node(&ctx, &sc.tree, &mut next) }));
     let nleaves = lv.len();
     let mk = |vs: Vec<Violation>, rejected: bool| POut { violations: vs, trace: vec![], steps: 0, switches: 0, digest: 0, inter: 0, overlap: 0, rejected, nleaves };
     let root = match (built, must_reject) {
